@@ -2,6 +2,7 @@ package harness
 
 import (
 	"fmt"
+	"math"
 	"reflect"
 	"sort"
 	"time"
@@ -111,11 +112,11 @@ func genC09(t *simrt.Tape, tier string) Scenario {
 	if t.Bool(1, 5) {
 		// standby 0 with batch >= 1 and an idle expiry longer than the run
 		sc.StandBy = 0
-		sc.Batch = 1 + t.Choose(3)
+		sc.Batch = []int{1, 2, 3, math.MaxInt}[t.Choose(4)] // MaxInt: one worker whatever the backlog
 		sc.ExpiryDur = 100 * time.Hour
 	} else {
 		sc.StandBy = 1 + t.Choose(sc.Max)
-		sc.Batch = t.Choose(4)
+		sc.Batch = []int{0, 1, 2, 3, math.MaxInt}[t.Choose(5)]
 		sc.ExpiryDur = c09Dur(t, sc.Unit)
 	}
 	sc.SpawnDur = c09Dur(t, sc.Unit)
